@@ -14,6 +14,7 @@ import (
 	"os"
 	"path/filepath"
 	"sort"
+	"strconv"
 	"strings"
 	"sync"
 	"sync/atomic"
@@ -138,6 +139,7 @@ type c29Bounds struct {
 	sess, forn                int // hybrid stores
 	dbSess, dbForn            int // plain DB stores
 	memSess                   int
+	holeSess, holeForn        int // additions in worlds whose stored history has holes
 	walk                      int // length of the black-box Prev/Next walks
 	layers                    int // foreign additions while a cursor is in use
 }
@@ -155,6 +157,7 @@ func c29Worlds(b c29Bounds) []c29World {
 	hyOps := c29OpSeqs(b.sess, b.forn)
 	dbOps := c29OpSeqs(b.dbSess, b.dbForn)
 	memOps := c29OpSeqs(b.memSess, 0)
+	holeOps := c29OpSeqs(b.holeSess, b.holeForn)
 	for _, st := range c29Seqs(b.stored) {
 		for _, ops := range hyOps {
 			ws = append(ws, c29World{c29HybridReal, st, 0, ops}, c29World{c29HybridFake, st, 0, ops})
@@ -175,11 +178,8 @@ func c29Worlds(b c29Bounds) []c29World {
 			if c29Popcount(m) > b.maxDel {
 				continue
 			}
-			for _, ops := range hyOps {
-				ws = append(ws, c29World{c29HybridReal, st, m, ops})
-			}
-			for _, ops := range dbOps {
-				ws = append(ws, c29World{c29DBReal, st, m, ops})
+			for _, ops := range holeOps {
+				ws = append(ws, c29World{c29HybridReal, st, m, ops}, c29World{c29DBReal, st, m, ops})
 			}
 		}
 	}
@@ -206,6 +206,68 @@ type c29Inst struct {
 
 var c29FileCtr atomic.Int64
 
+// c29RealDB is a real pkg/store over a bbolt file under $VERIF_SCRATCH. Creating
+// a file per world costs milliseconds of system time, so files are reused: before
+// every world the command bucket is dropped and re-created through bbolt (which
+// also resets its sequence counter), giving the state of a new database.
+type c29RealDB struct {
+	file string
+	bdb  *bolt.DB
+	st   store.DBStore
+}
+
+var c29Pool struct {
+	mu        sync.Mutex
+	free, all []*c29RealDB
+}
+
+func c29GetReal() *c29RealDB {
+	c29Pool.mu.Lock()
+	var r *c29RealDB
+	if n := len(c29Pool.free); n > 0 {
+		r = c29Pool.free[n-1]
+		c29Pool.free = c29Pool.free[:n-1]
+	}
+	c29Pool.mu.Unlock()
+	if r == nil {
+		file := filepath.Join(c29Scratch(), fmt.Sprintf("c29-%d-%d.db", os.Getpid(), c29FileCtr.Add(1)))
+		bdb, err := bolt.Open(file, 0o644, &bolt.Options{Timeout: time.Second, NoSync: true, NoFreelistSync: true})
+		c29Must(err, "open bolt db")
+		st, err := store.NewStoreFromDB(bdb)
+		c29Must(err, "create store")
+		r = &c29RealDB{file, bdb, st}
+		c29Pool.mu.Lock()
+		c29Pool.all = append(c29Pool.all, r)
+		c29Pool.mu.Unlock()
+		return r
+	}
+	c29Must(r.bdb.Update(func(tx *bolt.Tx) error {
+		if err := tx.DeleteBucket([]byte("cmd")); err != nil {
+			return err
+		}
+		_, err := tx.CreateBucket([]byte("cmd"))
+		return err
+	}), "reset command bucket")
+	if seq, err := r.st.NextCmdSeq(); err != nil || seq != 1 {
+		panic(fmt.Sprintf("harness: reset database has NextCmdSeq %d, %v", seq, err))
+	}
+	return r
+}
+
+func c29PutReal(r *c29RealDB) {
+	c29Pool.mu.Lock()
+	c29Pool.free = append(c29Pool.free, r)
+	c29Pool.mu.Unlock()
+}
+
+func c29CloseAll() {
+	for _, r := range c29Pool.all {
+		r.st.Close()
+		os.Remove(r.file)
+	}
+	c29Pool.all, c29Pool.free = nil, nil
+}
+
 func c29Scratch() string {
 	d := os.Getenv("VERIF_SCRATCH")
 	if d == "" {
@@ -227,14 +289,10 @@ func c29Build(w *c29World) *c29Inst {
 	var del func(seq int)
 	switch w.kind {
 	case c29HybridReal, c29DBReal:
-		file := filepath.Join(c29Scratch(), fmt.Sprintf("c29-%d-%d.db", os.Getpid(), c29FileCtr.Add(1)))
-		bdb, err := bolt.Open(file, 0o644, &bolt.Options{Timeout: time.Second, NoSync: true, NoFreelistSync: true})
-		c29Must(err, "open bolt db")
-		st, err := store.NewStoreFromDB(bdb)
-		c29Must(err, "create store")
-		db = st
-		del = func(seq int) { c29Must(st.DelCmd(seq), "DelCmd") }
-		inst.close = func() { st.Close(); os.Remove(file) }
+		r := c29GetReal()
+		db = r.st
+		del = func(seq int) { c29Must(r.st.DelCmd(seq), "DelCmd") }
+		inst.close = func() { c29PutReal(r) }
 	case c29HybridFake, c29DBFake:
 		db = NewFaultyInMemoryDB()
 	}
@@ -399,15 +457,39 @@ func c29Clone(c Cursor) Cursor {
 	panic(fmt.Sprintf("harness: unknown cursor type %T", c))
 }
 
-func c29FP(c Cursor) string {
+func c29FP(c Cursor) string { return string(c29AppendFP(nil, c)) }
+
+func c29AppendFP(b []byte, c Cursor) []byte {
 	switch c := c.(type) {
 	case *dbStoreCursor:
-		return fmt.Sprintf("db{%d %q %v}", c.cmd.Seq, c.cmd.Text, c.err)
+		b = append(b, "db{"...)
+		b = strconv.AppendInt(b, int64(c.cmd.Seq), 10)
+		b = strconv.AppendQuote(b, c.cmd.Text)
+		if c.err != nil {
+			b = append(b, c.err.Error()...)
+		}
+		return append(b, '}')
 	case *memStoreCursor:
-		return fmt.Sprintf("mem{%d/%d}", c.index, len(c.cmds))
+		b = append(b, "mem{"...)
+		b = strconv.AppendInt(b, int64(c.index), 10)
+		b = append(b, '/')
+		b = strconv.AppendInt(b, int64(len(c.cmds)), 10)
+		return append(b, '}')
 	case *hybridStoreCursor:
-		return fmt.Sprintf("hy{%s %s %v}", c29FP(c.shared), c29FP(c.session), c.useShared)
+		b = append(b, "hy{"...)
+		b = c29AppendFP(b, c.shared)
+		b = c29AppendFP(b, c.session)
+		b = strconv.AppendBool(b, c.useShared)
+		return append(b, '}')
 	case *dedupCursor:
+		b = append(b, "dd{"...)
+		b = c29AppendFP(b, c.c)
+		b = strconv.AppendInt(b, int64(c.current), 10)
+		for _, e := range c.stack {
+			b = append(b, ' ')
+			b = strconv.AppendInt(b, int64(e.Seq), 10)
+			b = strconv.AppendQuote(b, e.Text)
+		}
 		var occ []string
 		for k, v := range c.occ {
 			if v {
@@ -415,7 +497,11 @@ func c29FP(c Cursor) string {
 			}
 		}
 		sort.Strings(occ)
-		return fmt.Sprintf("dd{%s %d %v %q}", c29FP(c.c), c.current, c.stack, occ)
+		for _, k := range occ {
+			b = append(b, '|')
+			b = strconv.AppendQuote(b, k)
+		}
+		return append(b, '}')
 	}
 	panic(fmt.Sprintf("harness: unknown cursor type %T", c))
 }
@@ -485,7 +571,7 @@ func (cw *c29CursorWorld) bfs(seeds []c29Node, st *c29Stats) {
 	seen := map[string]bool{}
 	var queue []c29Node
 	for _, s := range seeds {
-		k := fmt.Sprintf("%s|%d", c29FP(s.cur), s.p)
+		k := c29FP(s.cur) + "|" + strconv.Itoa(s.p)
 		if !seen[k] {
 			seen[k] = true
 			queue = append(queue, s)
@@ -509,7 +595,7 @@ func (cw *c29CursorWorld) bfs(seeds []c29Node, st *c29Stats) {
 			if !cw.judge(c2, p2, path) {
 				continue
 			}
-			k := fmt.Sprintf("%s|%d", c29FP(c2), p2)
+			k := c29FP(c2) + "|" + strconv.Itoa(p2)
 			if !seen[k] {
 				seen[k] = true
 				queue = append(queue, c29Node{c2, p2, path})
@@ -659,8 +745,11 @@ func c29ShowList(exp []c29Entry) string {
 func TestVerifC29(t *testing.T) {
 	vk.Run(t, "C29", "model_checking", func(c *vk.Ctx) {
 		b := vk.Pick(c,
-			c29Bounds{stored: 3, storedDel: 3, maxDel: 1, sess: 2, forn: 2, dbSess: 1, dbForn: 1, memSess: 2, walk: 6, layers: 1},
-			c29Bounds{stored: 4, storedDel: 3, maxDel: 3, sess: 2, forn: 2, dbSess: 2, dbForn: 2, memSess: 3, walk: 8, layers: 2})
+			c29Bounds{stored: 3, storedDel: 3, maxDel: 1, sess: 2, forn: 2, dbSess: 1, dbForn: 1, memSess: 2, holeSess: 1, holeForn: 1, walk: 6, layers: 1},
+			c29Bounds{stored: 4, storedDel: 3, maxDel: 3, sess: 2, forn: 2, dbSess: 2, dbForn: 2, memSess: 3, holeSess: 2, holeForn: 2, walk: 8, layers: 2})
+		if v := os.Getenv("C29_WALK"); v != "" {
+			fmt.Sscan(v, &b.walk)
+		}
 		worlds := c29Worlds(b)
 		c.Rule(fmt.Sprintf("world = (store kind in %q, stored history = every sequence of <=%d commands over %q [boltdb kinds also: every history of <=%d commands with 1..%d of them deleted before the session], every interleaving of <=%d session and <=%d foreign additions over the same texts for hybrid stores (<=%d/<=%d for plain DB stores, <=%d session additions for memory stores)); in every world every prefix in %q with and without NewDedupCursor: breadth-first search of the product (exact cursor state x reference position) under {Prev, Next} to a fixpoint (i.e. walks of every length), continued from every reached state after each of %d further foreign addition(s) made while the cursors are live, plus every Prev/Next walk of <=%d steps replayed on a fresh cursor through the Cursor interface only; Get is compared with the reference after every step; worlds simplest first; class = (store kind, dedup and number of removed duplicates, prefix, matching old / session / hidden commands, holes)",
 			c29KindNames, b.stored, c29Texts, b.storedDel, b.maxDel, b.sess, b.forn, b.dbSess, b.dbForn, b.memSess, c29Prefixes, b.layers, b.walk))
@@ -685,6 +774,7 @@ func TestVerifC29(t *testing.T) {
 			tot.cases += st.cases
 			mu.Unlock()
 		})
+		c29CloseAll()
 		var keys []string
 		for k := range vc.m {
 			keys = append(keys, k)
